@@ -2,11 +2,11 @@
 //@ append src/find/mod.rs
 //@ module verif_enum_find
 //@ harness e_operand_scan kind=enum props=C18 bound=<<0..=3 leading operands over {x, ./y, -, (old), !keep, a b} followed by one of: nothing, -print, ! -name z, ( -true ), -name q>> label=<<the starting points are the leading operands up to the first argument that begins with '-' (other than '-' itself) or is exactly '!', '(', ')' or ','; no operand means '.'>>
-//@ harness e_roots kind=enum props=C18,C02,C07 bound=<<1..=3 starting points over an existing directory spelled D/a, D/./a, D/a/, D/a//, D/b, a file D/b/f and a missing D/missing, real tree x -P/-H/-L x with or without -name f -print0 -quit>> label=<<starting points are walked in the order given, each path reported begins with its starting point as spelled, and a starting point that cannot be examined gives a non-zero exit status without stopping the others>>
+//@ harness e_roots kind=enum props=C18,C02,C07 bound=<<1..=3 starting points over an existing directory spelled D/a, D/./a, D/a/, D/a//, D/b, a file D/b/f and a missing D/missing, real tree x -P/-H/-L x with or without -mindepth 1 x with or without -name f -print0 -quit>> label=<<starting points are walked in the order given, each path reported begins with its starting point as spelled, and a starting point that cannot be examined gives a non-zero exit status without stopping the others>>
 //@ harness e_walk_h_link_depth kind=enum props=C02 bound=<<the same tree; -H with the link to a directory as starting point and -depth; mindepth and maxdepth each absent or 0..=3>> label=<<the multiset of entries evaluated equals the independent walk for `find -H LINK-TO-DIRECTORY ... -depth`>>
 //@ harness e_walk kind=enum props=C02 bound=<<(all combinations except -H + link-to-directory starting point + -depth, which is e_walk_h_link_depth) a real tree with files, directories two levels deep, a link to a file, a link to a directory, a dangling link, a link to an ancestor directory (a cycle under -L) with a later sibling; starting point the tree, the link to a directory or the dangling link; -P/-H/-L; mindepth and maxdepth each absent or 0..=3; -depth on/off>> label=<<the multiset of entries evaluated equals an independent lstat/stat walk: every entry with mindepth <= depth <= maxdepth exactly once; links descended only where the follow mode says so; a dangling link visited as a link; a link closing a directory cycle neither evaluated nor followed, its siblings still visited>>
 //@ harness e_sorted kind=enum props=C03 bound=<<directories whose entries are 2..=3 names over {a, B, a-b, a.b, e-acute, the non-UTF-8 byte 0x80, 0xff} with one subdirectory level; -sorted with and without -depth>> label=<<with -sorted the visit sequence is the pre-order (post-order under -depth) walk with siblings in byte-wise name order>>
-//@ harness e_cmdline kind=enum props=C11 thorough_bound=<<every expression of 0..=4 tokens over 26 tokens on a real two-entry tree>> bound=<<every expression of 0..=3 tokens over 26 tokens (primaries with and without operands, operators, parentheses, near-miss operands) on a real two-entry tree>> label=<<find returns an ordinary exit status for every argument vector (no panic), and when the command line is rejected nothing is printed>>
+//@ harness e_cmdline kind=enum props=C11 thorough_bound=<<every expression of 0..=4 tokens over 27 tokens on a real two-entry tree>> bound=<<every expression of 0..=3 tokens over 27 tokens (primaries with and without operands, operators, parentheses, near-miss operands) on a real two-entry tree>> label=<<find returns an ordinary exit status for every argument vector (no panic), and when the command line is rejected nothing is printed>>
 //@ harness e_printf_time_spec kind=enum props=C11,C16 bound=<<-printf with %T, %A, %C followed by each printable ASCII character>> label=<<a time directive is either rejected before anything is printed, or renders for every entry: none is accepted and then fails while printing>>
 #[cfg(verif_replay)]
 mod verif_enum_find {
@@ -60,8 +60,10 @@ mod verif_enum_find {
         let chosen: Vec<usize> = (0..n).map(|_| pick(7)).collect();
         let mode = ["-P", "-H", "-L"][pick(3)];
         let quit = pick(2) == 1; // ... -name f -print0 -quit: stop at the first file named f
+        let mind = pick(2) == 1; // -mindepth 1: the starting points themselves are not evaluated (but still must be examined)
         let mut args: Vec<&str> = vec!["find", mode];
         for &c in &chosen { args.push(&spell[c].0); }
+        if mind { args.extend_from_slice(&["-mindepth", "1"]); }
         if quit { args.extend_from_slice(&["-name", "f", "-print0", "-quit"]); } else { args.push("-print0"); }
         let (rc, out) = run(&args);
         let mut want: Vec<u8> = Vec::new();
@@ -69,17 +71,17 @@ mod verif_enum_find {
         for &c in &chosen {
             let (s, child, exists) = &spell[c];
             if !exists { want_rc = 1; continue; }
-            if !quit { want.extend_from_slice(s.as_bytes()); want.push(0); }
+            if !quit && !mind { want.extend_from_slice(s.as_bytes()); want.push(0); }
             if let Some(ch) = child {
                 want.extend_from_slice(s.as_bytes());
                 if !s.ends_with('/') { want.push(b'/'); }
                 want.extend_from_slice(ch.as_bytes()); want.push(0);
                 if quit { break; }
-            } else if quit { want.extend_from_slice(s.as_bytes()); want.push(0); break; }
+            } else if quit && !mind { want.extend_from_slice(s.as_bytes()); want.push(0); break; }
         }
         let _ = std::fs::remove_dir_all(&d);
         let show = |b: &[u8]| String::from_utf8_lossy(b).replace('\0', "\u{2400}").replace(&ds, "D");
-        if out != want || (rc != 0) != (want_rc != 0) { eprintln!("  input find {mode} {:?}{}\n  input printed  {} (exit {rc})\n  input expected {} (exit {})", chosen.iter().map(|&c| spell[c].0.replace(&ds, "D")).collect::<Vec<_>>(), if quit { " -name f -print0 -quit" } else { " -print0" }, show(&out), show(&want), if want_rc != 0 { "non-zero" } else { "0" }); }
+        if out != want || (rc != 0) != (want_rc != 0) { eprintln!("  input find {mode} {:?}{}{}\n  input printed  {} (exit {rc})\n  input expected {} (exit {})", chosen.iter().map(|&c| spell[c].0.replace(&ds, "D")).collect::<Vec<_>>(), if mind { " -mindepth 1" } else { "" }, if quit { " -name f -print0 -quit" } else { " -print0" }, show(&out), show(&want), if want_rc != 0 { "non-zero" } else { "0" }); }
         assert!(out == want, "paths printed for the starting points, in order, as spelled");
         assert!((rc != 0) == (want_rc != 0), "exit status: non-zero iff a starting point could not be examined, also when -quit ends the run");
     }
@@ -186,7 +188,7 @@ mod verif_enum_find {
     #[test] fn e_sorted() { kani::explore(sorted_body) }
 
     fn cmdline_body() {
-        let toks = ["-print", "-name", "x*", "-o", "-a", "!", "(", ")", ",", "-type", "f", "q", "-size", "+1k", "1x", "-perm", "u+q", "-regex", "[", "-printf", "%", "-newer", "-maxdepth", "-1", "[b-a]", "-iname"];
+        let toks = ["-print", "-name", "x*", "-o", "-a", "!", "(", ")", ",", "-type", "f", "q", "-size", "+1k", "1x", "-perm", "u+q", "-regex", "[", "-printf", "%", "-newer", "-maxdepth", "-1", "[b-a]", "-iname", "\\1\u{20ac}"];
         let n = pick(if deep() { 5 } else { 4 });
         let expr: Vec<&str> = (0..n).map(|_| toks[pick(toks.len())]).collect();
         let d = scratch("cmd");
